@@ -669,6 +669,177 @@ def rule_emissions(chk, prog, Pr, L):
     return n
 
 
+def rule_token_integrity(chk, prog, Pr, L):
+    """A2-token: a quoted string is a whole token.  The parser ends a token at the closing quote and treats a quote in
+    the middle of a token as an ordinary character, so whatever the printer writes directly in front of an opening
+    quote and directly behind a closing quote must be a separator or a line break (or the start of the output).
+    Quoted units: a pair of quote emissions in one function (the first dominates the second, the second post-dominates
+    the first), and calls of functions whose own output can begin and end with such a pair.  The neighbours of a unit
+    are looked up along the control flow, through returns into the callers and through calls into the callees."""
+    q = (set(L.inquote) - {L.intro}) if L.intro is not None else set()
+    quote_chars = set(q)
+    if not quote_chars:
+        return 0
+    sep = set(L.sep) | {10}
+    unit = Pr.unit
+    fns = [f for f in unit.functions.values() if not f.decl]
+    for f in fns:
+        f.build()
+    byname = {f.name: f for f in fns}
+
+    def event(c):
+        """('chars', first set, last set) | ('call', g) | None for a call instruction"""
+        nm = norm_callee(c.callee)
+        f = c.fn
+        if nm in ("fputc", "putc") and len(c.ops) >= 2 and _is_stdout(prog, f, c.ops[1]):
+            if c.ops[0].is_const:
+                return ("chars", {c.ops[0].sval & 0xFF}, {c.ops[0].sval & 0xFF})
+            return ("chars", {"other"}, {"other"})
+        if nm == "putchar":
+            if c.ops[0].is_const:
+                return ("chars", {c.ops[0].sval & 0xFF}, {c.ops[0].sval & 0xFF})
+            return ("chars", {"other"}, {"other"})
+        if nm in ("fputs", "puts", "fwrite", "printf"):
+            if nm == "fputs" and not _is_stdout(prog, f, c.ops[1]):
+                return None
+            if nm == "fwrite" and not _is_stdout(prog, f, c.ops[3]):
+                return None
+            st = cstr(f, c.ops[0])
+            if st is None or st == "":
+                return ("chars", {"other"}, {"other"})
+            first = "other" if st[0] == "%" and nm == "printf" else ord(st[0])
+            last = ord(st[-1])
+            if nm == "printf" and len(st) >= 2 and st[-2] == "%":
+                last = "other"
+            if nm == "puts":
+                last = 10
+            return ("chars", {first}, {last})
+        if nm in byname and byname[nm] is not f:
+            return ("call", byname[nm])
+        return None
+
+    def events_in(b, lo=None, hi=None):
+        out = []
+        for i in b.insts:
+            if lo is not None and i.pos <= lo:
+                continue
+            if hi is not None and i.pos >= hi:
+                continue
+            if i.op == "call":
+                e = event(i)
+                if e is not None:
+                    out.append((i, e))
+        return out
+
+    memo_first, memo_last = {}, {}
+
+    def first_of(g, depth=0):
+        """set of chars/'other'/'none' the output of g can begin with"""
+        if g in memo_first:
+            return memo_first[g]
+        memo_first[g] = {"other"}
+        res = neighbours(g, None, forward=True, depth=depth + 1, stop_at_exit=True)
+        memo_first[g] = res
+        return res
+
+    def last_of(g, depth=0):
+        if g in memo_last:
+            return memo_last[g]
+        memo_last[g] = {"other"}
+        res = neighbours(g, None, forward=False, depth=depth + 1, stop_at_exit=True)
+        memo_last[g] = res
+        return res
+
+    def neighbours(f, site, forward, depth=0, stop_at_exit=False):
+        """chars that can directly follow (precede) the instruction `site` of f in the output; site None = entry/exit"""
+        out = set()
+        if depth > 6:
+            return {"other"}
+        seen = set()
+        if site is None:
+            start_blocks = [f.blocks[0]] if forward else [b for b in f.blocks if b.term.op == "ret"]
+            work = [(b, None) for b in start_blocks]
+        else:
+            work = [(site.bb, site.pos)]
+        while work:
+            b, pos = work.pop()
+            evs = events_in(b, lo=pos) if forward else events_in(b, hi=pos)
+            if not forward:
+                evs = list(reversed(evs))
+            hit = False
+            for (i, e) in evs:
+                if e[0] == "chars":
+                    out |= (e[1] if forward else e[2])
+                    hit = True
+                    break
+                sub = first_of(e[1], depth) if forward else last_of(e[1], depth)
+                out |= (sub - {"none"})
+                if "none" not in sub:
+                    hit = True
+                    break
+            if hit:
+                continue
+            nxt = b.succs if forward else [p_ for p_ in f.blocks if b in p_.succs]
+            if (forward and b.term.op == "ret") or (not forward and b is f.blocks[0]):
+                if stop_at_exit:
+                    out.add("none")
+                else:
+                    callers = [c for g in fns for c in g.calls() if norm_callee(c.callee) == f.name and g is not f]
+                    if not callers:
+                        out.add("edge")          # start / end of the whole output
+                    for c in callers:
+                        out |= neighbours(c.fn, c, forward, depth + 1)
+                continue
+            for n_ in nxt:
+                if id(n_) not in seen:
+                    seen.add(id(n_))
+                    work.append((n_, None))
+        return out
+
+    def quoting_function(g):
+        fo, lo_ = first_of(g), last_of(g)
+        return bool(fo & quote_chars) and bool(lo_ & quote_chars)
+
+    n = 0
+    for f in fns:
+        units = []
+        qem = [c for c in f.calls() if (event(c) or ("", set(), set()))[0] == "chars" and (event(c)[1] & quote_chars)]
+        used = set()
+        for a in qem:
+            if id(a) in used:
+                continue
+            for b_ in qem:
+                if b_ is a or id(b_) in used:
+                    continue
+                if f.inst_dominates(a, b_) and f.postdominates(b_.bb, a.bb) if hasattr(f, "postdominates") else f.inst_dominates(a, b_):
+                    units.append((a, b_, "quotes at lines %d/%d" % (a.line, b_.line)))
+                    used.add(id(a))
+                    used.add(id(b_))
+                    break
+        for c in f.calls():
+            e = event(c)
+            if e is not None and e[0] == "call" and quoting_function(e[1]):
+                units.append((c, c, "call of %s" % e[1].name))
+        for (a, b_, what) in units:
+            n += 1
+            chk.analysed(f)
+            before = neighbours(f, a, forward=False)
+            after = neighbours(f, b_, forward=True)
+            okb = all(x in sep or x == "edge" for x in before)
+            oka = all(x in sep or x == "edge" for x in after)
+            inst = "%s:%s" % (f.name, what)
+            if okb and oka:
+                chk.ok("A2-token", inst, a, "a separator, a line break or the edge of the output on both sides of the quoted token")
+            else:
+                def sh(xs):
+                    return ", ".join(sorted(repr(chr(x)) if isinstance(x, int) else x for x in xs if not (x in sep or x == "edge")))
+                chk.violation("A2-token", inst, a if not okb else b_, "a quoted token is not a token of its own: %s the parser "
+                              "ends the token at the closing quote and takes a quote inside a token as an ordinary character" % (
+                                  ("directly in front of the opening quote the printer can write %s; " % sh(before) if not okb else "") +
+                                  ("directly behind the closing quote the printer can write %s; " % sh(after) if not oka else "")))
+    return n
+
+
 def run(chk):
     chk.explanation = (
         "The full round trip (describe -> pack-file -> same tree) is value-level and not decided. Decided is the lexical "
@@ -677,7 +848,7 @@ def run(chk):
         "specials are escaped (O3) and nothing else is (O4); escape and quote characters match (O5); no printed line starts "
         "with a line-start special (O6); every raw emission of a non-constant string is dominated by a negative quoting "
         "decision on that string (O7); escaping happens only inside quotes (O8); printed keywords and the device arity "
-        "match the parser's table (O9).")
+        "match the parser's table (O9). A2-token: whatever is written directly in front of an opening quote and directly behind a closing quote is a separator, a line break or the edge of the output (neighbours looked up through calls and returns).")
     chk.assumptions = ["names containing a newline are excluded by the property", "istream_get_line yields the line without its terminator"]
     pg = load_program("gensquashfs")
     pr = load_program("rdsquashfs")
@@ -697,6 +868,8 @@ def run(chk):
     rule_classes(chk, L, Pr)
     rule_keywords(chk, pr, pg, L, Pr)
     rule_emissions(chk, pr, Pr, L)
+    rule_token_integrity(chk, pr, Pr, L)
+    chk.floor("A2-token", 3)
     chk.floor("A2-class", 6)
     chk.floor("A2-keyword", 6)
     chk.floor("A2-emit", 1)
